@@ -7,6 +7,7 @@
 #ifndef JSONCONS_REFLECT_DECODE_TRAITS_HPP
 #define JSONCONS_REFLECT_DECODE_TRAITS_HPP
 
+#include <algorithm> // std::min
 #include <array>
 #include <cstddef>
 #include <cstdint>
@@ -35,6 +36,11 @@
 
 namespace jsoncons {
 namespace reflect {
+
+namespace detail {
+    // upper bound on what a length or count field of the input may reserve in advance
+    constexpr std::size_t max_reserve_hint = 1024;
+} // namespace detail
 
 // decode_traits
 
@@ -348,7 +354,8 @@ struct decode_traits<T,
 
     static void reserve_storage(std::true_type, T& v, std::size_t new_cap)
     {
-        v.reserve(new_cap);
+        // new_cap is the element count announced by the input: a hint, not an amount of memory to commit
+        v.reserve((std::min)(new_cap, detail::max_reserve_hint));
     }
 
     static void reserve_storage(std::false_type, T&, std::size_t)
@@ -413,7 +420,8 @@ struct decode_traits<T,
 
     static void reserve_storage(std::true_type, T& v, std::size_t new_cap)
     {
-        v.reserve(new_cap);
+        // new_cap is the element count announced by the input: a hint, not an amount of memory to commit
+        v.reserve((std::min)(new_cap, detail::max_reserve_hint));
     }
 
     static void reserve_storage(std::false_type, T&, std::size_t)
@@ -471,7 +479,8 @@ struct decode_traits<T,
 
     static void reserve_storage(std::true_type, T& v, std::size_t new_cap)
     {
-        v.reserve(new_cap);
+        // new_cap is the element count announced by the input: a hint, not an amount of memory to commit
+        v.reserve((std::min)(new_cap, detail::max_reserve_hint));
     }
 
     static void reserve_storage(std::false_type, T&, std::size_t)
@@ -540,7 +549,8 @@ struct decode_traits<T,
 
     static void reserve_storage(std::true_type, T& v, std::size_t new_cap)
     {
-        v.reserve(new_cap);
+        // new_cap is the element count announced by the input: a hint, not an amount of memory to commit
+        v.reserve((std::min)(new_cap, detail::max_reserve_hint));
     }
 
     static void reserve_storage(std::false_type, T&, std::size_t)
@@ -660,7 +670,8 @@ struct decode_traits<T,
 
     static void reserve_storage(std::true_type, T& v, std::size_t new_cap)
     {
-        v.reserve(new_cap);
+        // new_cap is the element count announced by the input: a hint, not an amount of memory to commit
+        v.reserve((std::min)(new_cap, detail::max_reserve_hint));
     }
 
     static void reserve_storage(std::false_type, T&, std::size_t)
